@@ -87,6 +87,51 @@ def run(ctx):
             ctx.nontriv((tuple(aln), f))
         if len(ctx.samples) < 3 and len(aln) <= 3 and len(aln[0][1]) <= 61:
             ctx.sample(dict(alignment=aln, fmt=f))
+    # alignments as the pipeline leaves them in memory (rows carry their input position as rank; records without residues were dropped on the
+    # way): write in each format through the public API, read back with kalign's reader, compare with the FASTA written by the same object
+    from lib import sysrun
+    from lib.sysrun import Case
+    pl, pmeta = [], []
+    for j in range(10 if ctx.quick else 80):
+        kind_ = rng.choice(["dna", "protein"])
+        recs_ = gen.family(rng, kind_, rng.randint(3, 8), rng.choice([20, 70, 130]), sub=0.15, indel=0.08, spice=False)
+        if j % 2 == 0:
+            for _ in range(rng.randint(1, 3)):
+                recs_.insert(rng.randint(0, len(recs_) - 1), ("empty%d" % len(recs_), ""))
+        inp_ = os.path.join(sc, "c06_pipe_%d.fa" % j)
+        open(inp_, "w").write(gen.fasta_text(recs_))
+        outs_ = {f: os.path.join(sc, "c06_pipe_%d.%s" % (j, f)) for f in FMTS}
+        pl += ["h_read 0 %s" % inp_, "h_run 0 5 -1 -1 -1 %d" % rng.choice([1, 4])] + ["h_write 0 %s %s" % (outs_[f], f) for f in FMTS] + ["h_free 0"] + ["readfile %s" % outs_[f] for f in FMTS]
+        pmeta.append((recs_, outs_))
+    per = 6 + len(FMTS)
+    pch = [pl[i:i + per * 4] for i in range(0, len(pl), per * 4)]
+    with ThreadPoolExecutor(C.NCPU) as ex:
+        pres = list(ex.map(lambda ch: C.run_lines(kvh, ch, env=C.SAN_ENV, timeout=900), pch))
+    pout = []
+    for ch, (rc_, o_, e_) in zip(pch, pres):
+        pout += (o_ + [""] * len(ch))[:len(ch)]
+    for j, (recs_, outs_) in enumerate(pmeta):
+        ctx.evaluations += 1
+        base = j * per
+        dumps = {f: parse_dump(pout[base + 3 + len(FMTS) + k]) for k, f in enumerate(FMTS)}
+        for pth in outs_.values():
+            if os.path.exists(pth):
+                os.remove(pth)
+        if not pout[base + 1].startswith("rc=0"):
+            ctx.count("pipeline_run_rejected")
+            continue
+        ref = dumps["fasta"]
+        want = [(n_, q_) for n_, q_ in recs_ if q_]
+        if ref is None or [(n_, q_.upper()) for n_, q_, g_ in ref] != [(n_, q_.upper()) for n_, q_ in want]:
+            fails.append(("the FASTA written after a pipeline run does not read back to the input records", dict(records=recs_, read_back=(ref or [])[:6])))
+            continue
+        for f in ("clu", "msf"):
+            got = dumps[f]
+            if got is None or [(n_[:len(m_)] if False else n_, q_, g_) for n_, q_, g_ in got] != [(n_, q_, g_) for (n_, q_, g_), m_ in zip(ref, ref)]:
+                fails.append(("read(write(A, %s)) differs from read(write(A, fasta)) for the alignment a pipeline run left in memory" % f, dict(records=recs_, fmt=f, fasta=ref[:6], read_back=(got or [])[:6])))
+                break
+        else:
+            ctx.count("pipeline_roundtrip_ok")
     for why, rep in fails[:5]:
         ctx.violation(why, dict(kind="oracle", detail=rep))
     C.report_diffs(ctx, diffs, fails, "write+read")
